@@ -548,6 +548,22 @@ func (m *fieldModel) writesOf(fn *ssa.Function) map[*types.Var]bool {
 						visit(cal, d+1)
 					}
 				}
+				// a helper of the routine in its own package (an extracted attach step)
+				if h := regionCallee(x); h != nil && h.Blocks != nil && h != fn && isRepoFunc(h) {
+					pp := ""
+					if h.Pkg != nil {
+						pp = h.Pkg.Pkg.Path()
+					} else if h.Parent() != nil && h.Parent().Pkg != nil {
+						pp = h.Parent().Pkg.Pkg.Path()
+					}
+					switch h.Name() {
+					case "Get", "blocks", "headers", "receipts", "logs", "traces", "do":
+					default:
+						if pp == modPath+"/jrpc2" {
+							visit(h, d+1)
+						}
+					}
+				}
 				if b, ok := x.Call.Value.(*ssa.Builtin); ok && b.Name() == "copy" {
 					// copy(dst, src) of eth structs: tagged fields of the element type
 					if sl, ok := x.Call.Args[0].Type().Underlying().(*types.Slice); ok {
